@@ -2,10 +2,12 @@
    computation on the physically reduced table, up to the renaming of ranks.  No bound on the number of samples.
    Aligned with the corrected code (Db::getRanksActive through isActive + useCoord, _hasCoordinates in Vario.cpp,
    ANeigh::_discardUndefined on coordinates / external drifts, turning-bands _isSampleUsable and masked targets). *)
-From Coq Require Import List Arith ZArith QArith Bool Sorted.
+From Coq Require Import List Arith ZArith QArith Qround Bool Sorted.
 From Gst Require Import lib.QAux lib.LinAlgQ C05.Reindex C05.Model C05.Spec C05.Proofs_db.
 From Gst Require C01.Model C01.Proofs C06.Model C06.Spec C12.Model.
-From Gst Require Import C05.Spec_krige C05.Proofs_krige C05.Spec_neigh C05.Proofs_neigh C05.Spec_vario C05.Proofs_vario.
+From Gst Require C12.ModelExt C13.Model C14.L2 C14.TB.
+From Gst Require Import C05.Spec_krige C05.Proofs_krige C05.Spec_neigh C05.Proofs_neigh C05.Spec_vario C05.Proofs_vario C05.Proofs_vario_ext.
+From Gst Require Import C05.Model2 C05.Proofs2 C05.Spec_simu C05.Proofs_simu.
 Import ListNotations.
 Local Open Scope Q_scope.
 
@@ -265,6 +267,123 @@ Theorem C05_vario_undefined : forall cf flag_sample d (l : list (list (option Q)
 Proof. exact compute_dir_coords. Qed.
 Print Assumptions C05_vario_undefined.
 
+(* ---------------------------------------------------------------------------------------------- further algorithms *)
+(* movingAverage / movingMedian / nearestNeighbor / leastSquares (CalcSimpleInterpolation) are functions of the samples
+   handed over by the neighbourhood search: whatever is read at the selected ranks is read at the same samples on the
+   reduced Db *)
+Theorem C05_neigh_values : forall (A : Type) (f : nat -> A) oracle p t samples,
+  map f (C06.Model.r_ranks (C06.Model.moving oracle p t samples)) =
+  map (fun a => f (ren (nkept samples) a)) (C06.Model.r_ranks (C06.Model.moving oracle p t (nreduce samples))).
+Proof. intros A f oracle p t samples. rewrite (proj1 (moving_reduce oracle p t samples)). apply map_map. Qed.
+Print Assumptions C05_neigh_values.
+
+(* inverse squared distance (CalcSimpleInterpolation::_pointInvdist, exponent 2) *)
+Theorem C05_invdist : forall hasSel dmin2 dmax2 t l,
+  invdist hasSel dmin2 dmax2 t l = invdist hasSel dmin2 dmax2 t (filter (idw_usable hasSel) l) /\
+  invdist hasSel dmin2 dmax2 t l = invdist hasSel dmin2 dmax2 t (reduce_rows hasSel l).
+Proof. exact invdist_reduce. Qed.
+Print Assumptions C05_invdist.
+Theorem C05_invdist_nothing_usable : forall hasSel dmin2 dmax2 t l,
+  (forall r, In r l -> idw_usable hasSel r = false) -> invdist hasSel dmin2 dmax2 t l = None.
+Proof. exact invdist_none. Qed.
+Print Assumptions C05_invdist_nothing_usable.
+
+(* migration point -> point: the value of the nearest active sample that HAS a value (correction e745a596c) *)
+Theorem C05_migrate : forall hasSel dmax2 t l,
+  migrate_value hasSel dmax2 t l = migrate_value hasSel dmax2 t (reduce_rows hasSel l) /\
+  migrate_value hasSel dmax2 t l = migrate_value hasSel dmax2 t (filter (idw_usable hasSel) l).
+Proof. exact migrate_reduce. Qed.
+Print Assumptions C05_migrate.
+(* ... an undefined value is never what a found sample gives *)
+Theorem C05_migrate_defined : forall hasSel dmax2 t l v,
+  n_v (fold_left (near_step hasSel dmax2 t) l near_init) = Some v -> isdef v = true.
+Proof. intros hasSel dmax2 t l. apply near_defined. intros v H. discriminate H. Qed.
+Print Assumptions C05_migrate_defined.
+(* the loop as it was (regression): masked samples were filtered, undefined values were not - check key migrate:NA-value *)
+Definition migrate_wit : list row :=
+  [ {| r_sel := None; r_w := None; r_coords := [Some 1]; r_vals := [None]; r_verr := [] |};
+    {| r_sel := None; r_w := None; r_coords := [Some 3]; r_vals := [Some 7]; r_verr := [] |} ].
+Theorem C05_migrate_old : forall hasSel dmax2 t l,
+  migrate_value_old hasSel dmax2 t l = migrate_value_old hasSel dmax2 t (reduce_rows hasSel l).
+Proof. exact migrate_old_reduce. Qed.
+Print Assumptions C05_migrate_old.
+Theorem C05_migrate_old_undefined_value_refuted : exists l t,
+  migrate_value_old false None t l <> migrate_value_old false None t (filter (idw_usable false) l) /\
+  migrate_value false None t l = migrate_value false None t (filter (idw_usable false) l) /\ migrate_value false None t l = Some 7.
+Proof. exists migrate_wit, [0]. vm_compute. split; [discriminate|split; reflexivity]. Qed.
+Print Assumptions C05_migrate_old_undefined_value_refuted.
+
+(* regression (mode 0): the accumulated normal equations, hence the coefficients, the count and the variances *)
+Theorem C05_regression : forall hasSel cst naux l,
+  regr_acc hasSel cst naux l = regr_acc hasSel cst naux (filter (regr_usable hasSel cst) l) /\
+  regr_acc hasSel cst naux l = regr_acc hasSel cst naux (reduce_rows hasSel l) /\
+  g_num (regr_acc hasSel cst naux l) = length (filter (regr_usable hasSel cst) l).
+Proof. intros. split; [apply regr_reduce|]. split; [apply regr_reduce|apply regr_count]. Qed.
+Print Assumptions C05_regression.
+Theorem C05_regression_coeffs : forall st x, regr_coeffs st = Some x ->
+  forall i, (i < length (g_b st))%nat -> fmv (length (g_b st)) (get (g_a st)) (fun k => nth k x 0) i == nth i (g_b st) 0.
+Proof. exact regr_coeffs_solve. Qed.
+Print Assumptions C05_regression_coeffs.
+
+(* statistics per cell of a grid (dbStatisticsPerCell), the cell of a sample being an oracle *)
+Theorem C05_percell : forall hasSel cell ncell l,
+  percell hasSel cell ncell l = percell hasSel cell ncell (filter (idw_usable hasSel) l) /\
+  percell hasSel cell ncell l = percell hasSel cell ncell (reduce_rows hasSel l).
+Proof. exact percell_reduce. Qed.
+Print Assumptions C05_percell.
+
+(* variogram cloud and variogram map on scattered points (models of C12.ModelExt) *)
+Theorem C05_vcloud : forall cf d lagnb varnb dx0 dx1 l,
+  C12.ModelExt.vcloud cf d lagnb varnb dx0 dx1 (vreduce cf l) = C12.ModelExt.vcloud cf d lagnb varnb dx0 dx1 l.
+Proof. exact vcloud_reduce. Qed.
+Print Assumptions C05_vcloud.
+Theorem C05_vmap : forall cf l nxx dxx, C12.ModelExt.vmap_points cf (vreduce cf l) nxx dxx = C12.ModelExt.vmap_points cf l nxx dxx.
+Proof. exact vmap_points_reduce. Qed.
+Print Assumptions C05_vmap.
+(* variogram on a grid: a cell cannot be removed; the result with a selection is the result on the grid without selection
+   where every variable of the masked cells is undefined *)
+Theorem C05_vario_grid : forall cf d dp2 nx cells g,
+  C12.ModelExt.grid_solution (cfg_nosel cf) d dp2 nx (map (gblank cf) cells) g = C12.ModelExt.grid_solution cf d dp2 nx cells g.
+Proof. exact grid_solution_blank. Qed.
+Print Assumptions C05_vario_grid.
+
+(* ---------------------------------------------------------------------------------------------- turning bands (models of C13, C14) *)
+(* _updateData2ToTarget: the value substituted at a target that coincides with a datum is looked for among the ACTIVE
+   data only (this is the line the seeded change C05_1 removed) *)
+Theorem C05_simu_update : forall nbsimu nvar icase eps2 data ta c r,
+  C13.Model.update_point_target nbsimu nvar icase eps2 (filter C13.Model.d_active data) ta c r =
+  C13.Model.update_point_target nbsimu nvar icase eps2 data ta c r.
+Proof. exact update_reduce. Qed.
+Print Assumptions C05_simu_update.
+Theorem C05_simu_update_all_masked : forall nbsimu nvar icase eps2 data c r,
+  (forall d, In d data -> C13.Model.d_active d = false) -> C13.Model.update_point_target nbsimu nvar icase eps2 data true c r = r.
+Proof. exact update_masked_only. Qed.
+Print Assumptions C05_simu_update_all_masked.
+(* _difference: the masked data keep their cells and give no row to the kriging of the errors *)
+Theorem C05_simu_difference : forall nbsimu nvar icase l,
+  nb_rows (difference_all nbsimu nvar icase (reduce_data l)) = nb_rows (difference_all nbsimu nvar icase l) /\
+  forall x, In x l -> dact x = false -> In x (difference_all nbsimu nvar icase l).
+Proof. intros. split; [apply nb_rows_reduce|]. intros x H1 H2. apply difference_masked_untouched; assumption. Qed.
+Print Assumptions C05_simu_difference.
+(* one target of the conditional simulation: error kriging + substitution.  PARTIAL: the kriging weights are an oracle
+   (they solve the system of the active data: C05_krige, C13_masked_sample, C13_undefined_not_active) *)
+Theorem C05_simu_conditioning_partial : forall nbsimu nvar icase eps2 l wgt ta c trow,
+  cond_target nbsimu nvar icase eps2 (reduce_data l) wgt ta c trow = cond_target nbsimu nvar icase eps2 l wgt ta c trow /\
+  cond_target nbsimu nvar icase eps2 l wgt false c trow = trow.
+Proof. intros. split; [apply cond_target_reduce|reflexivity]. Qed.
+Print Assumptions C05_simu_conditioning_partial.
+(* non-conditional part (C14.TB assembly).  PARTIAL: the band tables T are oracles indexed by the sample rank; on the reduced
+   Db they are the same tables read through the renaming.  A sample outside activeArray receives nothing. *)
+Theorem C05_simu_nonconditional_partial : forall nvar ncov nb T correc A norme act j,
+  (forall x, nth x act false = false -> nc_value nvar ncov nb T correc A norme act j x = None) /\
+  (forall a, (a < length (act_kept act))%nat ->
+     nc_value nvar ncov nb (fun i s b x => T i s b (ren (act_kept act) x)) correc A norme (lsub false (act_kept act) act) j a =
+     nc_value nvar ncov nb T correc A norme act j (ren (act_kept act) a) /\
+     nc_value nvar ncov nb T correc A norme act j (ren (act_kept act) a) =
+       Some (C14.TB.tb_out nvar ncov nb T correc A norme j (ren (act_kept act) a))).
+Proof. intros. split; [intros x H; apply nc_masked; exact H|intros a Ha; apply nc_reduce; exact Ha]. Qed.
+Print Assumptions C05_simu_nonconditional_partial.
+
 (* ---------------------------------------------------------------------------------------------- non-vacuity *)
 Definition ex_rows : list row :=
   [ {| r_sel := Some 1; r_w := Some 2;  r_coords := [Some 0; Some 0]; r_vals := [Some 1; Some 10];  r_verr := [Some 0] |};
@@ -384,4 +503,63 @@ Example C05_vario_undefined_nonvacuous :
   map (vusable cf) l = [true; false; true; true] /\
   length (C12.Model.reached1 (vcfg cf) ex_vd (map (vembed cf) l)) = 3%nat /\
   map (map C12.Model.o_sw) (C12.Model.compute_dir (vcfg cf) false ex_vd (map (vembed cf) l)) = [[0; 1; 1; 1]].
+Proof. vm_compute. repeat split; reflexivity. Qed.
+
+(* ---- further algorithms and boundary cases: all masked, selection all ones, undefined / zero weights, undefined selection ---- *)
+Definition mkr (sel : oq) (w : oq) (x : oq) (z1 z2 : oq) : row :=
+  {| r_sel := sel; r_w := w; r_coords := [x]; r_vals := [z1; z2]; r_verr := [] |}.
+Definition ex2 : list row :=
+  [mkr (Some 1) (Some 1) (Some 0) (Some 2) (Some 1); mkr (Some 0) None (Some 1) (Some 50) (Some 2); mkr (Some 1) (Some 0) (Some 2) (Some 4) (Some 3);
+   mkr None (Some 1) (Some 3) (Some 60) (Some 4); mkr (Some 1) None (Some 4) None (Some 5); mkr (Some 1) (Some 2) (Some 6) (Some 8) (Some 6)].
+Definition all_masked : list row := map (fun r => {| r_sel := Some 0; r_w := r_w r; r_coords := r_coords r; r_vals := r_vals r; r_verr := [] |}) ex2.
+Definition all_ones : list row := map (fun r => {| r_sel := Some 1; r_w := r_w r; r_coords := r_coords r; r_vals := r_vals r; r_verr := [] |}) ex2.
+Example C05_invdist_nonvacuous :
+  option_map Qred (invdist true (1 # 1000000) None [1] ex2) = Some (158 # 51) /\ invdist true (1 # 1000000) None [2] ex2 = Some 4 /\
+  option_map Qred (invdist true (1 # 1000000) (Some 2) [1] ex2) = Some 3 /\
+  invdist true (1 # 1000000) None [1] all_masked = None /\ invdist false (1 # 1000000) None [1] [] = None /\
+  invdist true (1 # 1000000) None [1] all_ones = invdist false (1 # 1000000) None [1] ex2 /\
+  length (filter (idw_usable true) ex2) = 3%nat.
+Proof. vm_compute. repeat split; reflexivity. Qed.
+Example C05_migrate_nonvacuous :
+  migrate_value true None [1] ex2 = Some 2 /\ migrate_value false None [1] ex2 = Some 50 /\
+  migrate_value true None [4] ex2 = Some 4 (* the active sample at 4 has no value: the nearest one with a value, first of two at distance 2 *) /\
+  migrate_value_old true None [4] ex2 = None /\
+  migrate_value true None [1] all_masked = None /\ migrate_value true None [1] all_ones = migrate_value false None [1] ex2.
+Proof. vm_compute. repeat split; reflexivity. Qed.
+Example C05_regression_nonvacuous :
+  g_num (regr_acc true true 1 ex2) = 3%nat /\ regr_coeffs (regr_acc true true 1 ex2) = Some [(12 # 19); (23 # 19)] /\
+  g_num (regr_acc true true 1 all_masked) = 0%nat /\ regr_coeffs (regr_acc true true 1 all_masked) = None /\
+  g_num (regr_acc true true 1 all_ones) = 5%nat /\ regr_acc true true 1 all_ones = regr_acc false true 1 ex2.
+Proof. vm_compute. repeat split; reflexivity. Qed.
+Example C05_percell_nonvacuous :
+  let cell := fun r => match nth 0 (r_coords r) None with Some x => Some (Z.to_nat (Qfloor (x / 3))) | None => None end in
+  map c_nn (percell true cell 3 ex2) = [2; 0; 1]%nat /\ map c_s1 (percell true cell 3 ex2) = [6; 0; 8] /\
+  map c_nn (percell true cell 3 all_masked) = [0; 0; 0]%nat /\ map c_nn (percell false cell 3 ex2) = [3; 1; 1]%nat.
+Proof. vm_compute. repeat split; reflexivity. Qed.
+(* rank lists: explicit list of masked samples only / everything masked / selection all ones *)
+Example C05_ranks_boundary_nonvacuous :
+  multiple_ranks_active true 2 0 [0%nat] [1; 3]%nat true false false ex2 = [[]] /\
+  multiple_ranks_active true 2 0 [] [] true false false all_masked = [[]; []] /\
+  multiple_ranks_active true 2 0 [] [] true false false all_ones = multiple_ranks_active false 2 0 [] [] true false false ex2 /\
+  kept_rows true false all_masked = [] /\ stat_multi true true 0 0 all_masked = stat_multi true true 0 0 [] /\
+  x_num (stat_multi true true 0 0 ex2) = 3 (* weights 1, 0 and 2: the undefined weight of the masked sample is never read *).
+Proof. vm_compute. repeat split; reflexivity. Qed.
+(* turning bands: datum 1 is masked and coincides with the target: nothing is substituted; datum 2 active: its value is *)
+Example C05_simu_cond_nonvacuous :
+  let d0 := C13.Model.mkDatum true [0; 0] [Some 4] in let d1 := C13.Model.mkDatum false [2; 0] [Some 9] in
+  let d2 := C13.Model.mkDatum true [5; 0] [Some 7] in
+  let l := [(d0, [Some 10]); (d1, [Some 20]); (d2, [Some 30])] in
+  nb_rows (difference_all 1 1 0 l) = [[Some (10 - 4)]; [Some (30 - 7)]] /\
+  C13.Model.update_point_target 1 1 0 (1 # 1000) (map fst l) true [2; 0] [Some 100] = [Some 100] /\
+  C13.Model.update_point_target 1 1 0 (1 # 1000) (map fst l) true [5; 0] [Some 100] = [Some 7] /\
+  cond_target 1 1 0 (1 # 1000) l [[1 # 2]; [1 # 2]] true [5; 0] [Some 100] = cond_target 1 1 0 (1 # 1000) (reduce_data l) [[1 # 2]; [1 # 2]] true [5; 0] [Some 100] /\
+  act_kept [true; false; true] = [0; 2]%nat /\
+  C13.Model.update_point_target 1 1 0 (1 # 1000) [d1] true [2; 0] [Some 100] = [Some 100].
+Proof. vm_compute. repeat split; reflexivity. Qed.
+(* variogram cloud / map / grid: one masked sample among four *)
+Example C05_vario_ext_nonvacuous :
+  length (C12.ModelExt.cloud_pairs ex_vcf ex_vl) = 3%nat /\ length (C12.ModelExt.cloud_pairs (cfg_nosel ex_vcf) ex_vl) = 6%nat /\
+  map (gblank ex_vcf) ex_vl = [ex_vs 2 true 5; blank (ex_vs 1 false 100); ex_vs 0 true 1; ex_vs 3 true 2] /\
+  C12.ModelExt.grid_solution ex_vcf ex_vd 1 [4%nat] ex_vl [1%Z] = C12.ModelExt.grid_solution (cfg_nosel ex_vcf) ex_vd 1 [4%nat] (map (gblank ex_vcf) ex_vl) [1%Z] /\
+  map (map C12.Model.o_sw) (C12.ModelExt.grid_solution ex_vcf ex_vd 1 [4%nat] ex_vl [1%Z]) = [[0; 1; 1; 1]].
 Proof. vm_compute. repeat split; reflexivity. Qed.
